@@ -29,6 +29,9 @@ LHAFileHeader *lha_basic_reader_next_file(LHABasicReader *r)
 		vg_B.cur = NULL;
 		return NULL;
 	}
+#ifdef VG_HISTORY
+	i = vg_B.next_calls - 1;      /* history group: member number k is pool header k (all distinct, never seen before) */
+#endif
 	__CPROVER_assume(i < VG_NH && vg_ref[i] == 0);
 	vg_B.cur = &vg_h[i];
 	return vg_B.cur;
@@ -994,5 +997,101 @@ void h_new(void)
 		free(r);
 	}
 	VG_CANARY("lha_reader_new");
+}
+#endif
+
+/* ------------------------------------------------------------------ bounded history (cross-check of the contracts) ---- */
+/* Real lha_reader_next_file / lha_reader_extract / lha_reader_current_is_fake, no loop contracts, from the state
+   lha_reader_new leaves, over an archive of at most VG_HMEM (= 1) members that are directories or symlinks (so no decoder
+   is involved), any directory policy, any choice of extract / skip per entry.  Checks the trace-level reading of
+   C15 / C10 that the per-function contracts are meant to add up to: every deferred symlink and every pushed
+   directory is re-presented exactly once, where documented; after the end every request reports end. */
+#ifdef VG_HISTORY
+#ifndef VG_HMEM
+#define VG_HMEM 1      /* 2 members: SAT back end runs out of memory (11 GB) during propositional reduction */
+#endif
+#define VG_HCALLS (2 * VG_HMEM + 2)
+static char vg_tgts[VG_NH][4];
+void h_history(void)
+{
+	unsigned step, shown_fake[VG_NH], shown_def[VG_NH], pushed[VG_NH], deferred[VG_NH], members = 0;
+	size_t i, last_def_len = 0; _Bool any_def = 0, ended = 0;
+	LHAReaderDirPolicy pol;
+	LHAFileHeader *h;
+	vg_havoc();
+	vg_pick_strings();
+	__CPROVER_havoc_object(vg_tgts);
+	for (i = 0; i < VG_NH; ++i) {
+		shown_fake[i] = 0; shown_def[i] = 0; pushed[i] = 0; deferred[i] = 0;
+		vg_ref[i] = 0;
+		/* ASSUME: what lha_file_header_read guarantees for "-lhd-" headers: directories carry a path, symlink targets are strings */
+		vg_h[i].compress_method[0] = '-'; vg_h[i].compress_method[1] = 'l'; vg_h[i].compress_method[2] = 'h';
+		vg_h[i].compress_method[3] = 'd'; vg_h[i].compress_method[4] = '-'; vg_h[i].compress_method[5] = 0;
+		vg_tgts[i][3] = 0;
+		vg_h[i].symlink_target = nondet_bool() ? NULL : vg_tgts[i];
+		vg_h[i].path = vg_pathbuf[i];
+		vg_h[i]._next = NULL;
+		__CPROVER_assume(vg_plen[i] < 100 && vg_flen[i] < 100);
+	}
+	/* the state lha_reader_new establishes (group reader.lha_reader_new) */
+	vg_rd.reader = VG_BR; vg_rd.curr_file = NULL; vg_rd.curr_file_type = CURR_FILE_START; vg_rd.decoder = NULL; vg_rd.inner_decoder = NULL;
+	vg_rd.dir_stack = NULL; vg_rd.deferred_symlinks = NULL; vg_rd.dir_policy = LHA_READER_DIR_END_OF_DIR;
+	vg_pick_decoder_config(0);
+	vg_B.cur = NULL; vg_B.eof = 0; vg_B.next_calls = 0;
+	vg_F.file_open = 0; vg_M.tmp_live = 0;
+	__CPROVER_assume(pol == LHA_READER_DIR_PLAIN || pol == LHA_READER_DIR_END_OF_DIR || pol == LHA_READER_DIR_END_OF_FILE);
+	lha_reader_set_dir_policy(&vg_rd, pol);
+
+	for (step = 0; step < VG_HCALLS; ++step) {
+		if (vg_B.next_calls >= VG_HMEM) {
+			vg_B.eof = 1;                 /* the archive has at most VG_HMEM members */
+		}
+		h = lha_reader_next_file(&vg_rd);
+		if (h == NULL) {
+			if (ended) { VG_CANARY("history: request after the end"); }
+			ended = 1;
+			continue;
+		}
+		__CPROVER_assert(!ended, "C15: after the end is reached every further request reports end");
+		i = VG_IDX(h);
+		if (vg_rd.curr_file_type == CURR_FILE_FAKE_DIR) {
+			__CPROVER_assert(lha_reader_current_is_fake(&vg_rd), "C15: re-presented directory is reported as fake");
+			__CPROVER_assert(pushed[i] == 1 && shown_fake[i] == 0, "C15: only a directory this reader created is re-presented, and only once");
+			__CPROVER_assert(pol != LHA_READER_DIR_PLAIN, "C15: never under the plain policy");
+			__CPROVER_assert(pol == LHA_READER_DIR_END_OF_FILE ==> vg_B.cur == NULL, "C15: END_OF_FILE: only at the end of the archive");
+			__CPROVER_assert(!any_def, "C10: directories are finished before any deferred symlink is created");
+			shown_fake[i]++;
+		} else if (vg_rd.curr_file_type == CURR_FILE_DEFERRED_SYMLINK) {
+			__CPROVER_assert(lha_reader_current_is_fake(&vg_rd), "C15: re-presented symlink is reported as fake");
+			__CPROVER_assert(deferred[i] == 1 && shown_def[i] == 0, "C15: only a deferred symlink is re-presented, and only once");
+			__CPROVER_assert(vg_B.cur == NULL && vg_rd.dir_stack == NULL, "C10: deferred symlinks come after every member and every pending directory");
+			__CPROVER_assert(!any_def || VG_PLEN(i) <= last_def_len, "C10: longest path first");
+			any_def = 1; last_def_len = VG_PLEN(i);
+			shown_def[i]++;
+		} else {
+			__CPROVER_assert(vg_rd.curr_file_type == CURR_FILE_NORMAL && h == vg_B.cur && !lha_reader_current_is_fake(&vg_rd), "C15: otherwise the archive's next member");
+			members++;
+		}
+		if (nondet_bool()) {
+			unsigned sl0 = vg_F.symlinks, mk0 = vg_F.mkdirs;
+			LHAFileHeader *stk0 = vg_rd.dir_stack; int ref0 = vg_ref[i];
+			int r = lha_reader_extract(&vg_rd, vg_userfn, NULL, NULL);
+			if (vg_rd.curr_file_type == CURR_FILE_NORMAL) {
+				if (vg_rd.dir_stack != stk0) { pushed[i]++; }
+				else if (vg_ref[i] != ref0) { deferred[i]++; __CPROVER_assert(vg_F.symlinks == sl0, "C10: a deferred link is not created now"); }
+			}
+			if (vg_rd.curr_file_type == CURR_FILE_DEFERRED_SYMLINK) {
+				__CPROVER_assert(vg_F.symlinks == sl0 + 1 && vg_F.mkdirs == mk0, "C10: the deferred link is created when it is re-presented");
+			}
+			(void) r;
+		}
+	}
+	/* the walk is long enough to reach the end: members + as many re-presented entries + end + one more request */
+	__CPROVER_assert(ended, "C13/C15: the end is reached");
+	__CPROVER_assert(vg_X < VG_NH ==> (shown_fake[vg_X] == pushed[vg_X] && shown_def[vg_X] == deferred[vg_X] && pushed[vg_X] + deferred[vg_X] <= 1),
+	                 "C15: by the end of the archive every pushed directory and every deferred symlink has been re-presented exactly once");
+	if (any_def) { VG_CANARY("history: a deferred symlink was re-presented"); }
+	if (vg_X < VG_NH && shown_fake[vg_X] == 1) { VG_CANARY("history: a directory was re-presented"); }
+	VG_CANARY("history");
 }
 #endif
